@@ -15,6 +15,18 @@ Three sources of programs:
 Reusable pieces (C01, C10, C11, C13 use them): generate_programs(seed, n, features),
 render(ast), run_real(programs), judge(records).
 
+The abstract syntax handed to TLC is what the REAL parser makes of the rendered text (adopt_parser_ast),
+so a record is by construction the syntax of the very text that was run.
+
+A disagreement is first attributed (classify) to the open findings of /verif/known_findings.json: by a
+syntactic trigger, by re-running an equivalent rewriting on the real implementation (wrap_binders) or by
+asking TLC whether the observation is what the specification computes for the defect's variant of the
+program (inherit_variants, noinput_variant).  Only what is left prints VIOLATION.
+
+quick: corpus + every tiny program (<= 5 nodes, focused grammar <= 6) + 2400 generated, about 45 s;
+thorough: tiny <= 6 / <= 7 and 50 000 generated.  Self-test (errors seeded on the SPECIFICATION side,
+/repo untouched): engines/seqlang_selftest.py.
+
 Environment: SEQ_N (number of generated programs, overrides the tier), SEQ_BATCH (records per TLC
 run, default 1500), SEQ_KEEP=1 (keep the trace files under work/seqlang).
 """
